@@ -177,6 +177,8 @@ impl Expansion<'_> {
             .map(|out_ty| {
                 // `&` binds tighter than `+`, so a trait object with several bounds has to be
                 // parenthesized before a reference to it can be spelled.
+                // `Self` in a field type means the deriving type, not the tuple implemented for.
+                let self_ty = quote! { #input_ident #ty_gens };
                 let tys: Vec<_> = fields_tys
                     .validate_type(out_ty)?
                     .map(|ty| match ty {
@@ -185,6 +187,7 @@ impl Expansion<'_> {
                         }
                         _ => quote! { #ty },
                     })
+                    .map(|ty| crate::utils::replace_self(&ty, &self_ty))
                     .collect();
 
                 Ok(quote! {
